@@ -49,7 +49,16 @@ CORR = {
 def props_files(prop):
     import glob
     d = os.path.join(VERIF, 'coq', 'theories', 'Props')
-    return sorted(glob.glob(os.path.join(d, prop + '.v')) + glob.glob(os.path.join(d, prop + '[a-z]*.v')))
+    found = sorted(glob.glob(os.path.join(d, prop + '.v')) + glob.glob(os.path.join(d, prop + '[a-z]*.v')))
+    # only files that are part of the development (listed in _CoqProject):
+    # a file still being written is not an obligation yet
+    try:
+        with open(os.path.join(VERIF, 'coq', '_CoqProject')) as f:
+            listed = {l.strip() for l in f}
+        found = [p for p in found if 'theories/Props/' + os.path.basename(p) in listed]
+    except OSError:
+        pass
+    return found
 
 
 def check_props(prop, corr):
